@@ -340,6 +340,7 @@ pub fn run_case(case: &J, modules: &HashMap<PathBuf, String>, outdir: &Path) -> 
 
     let mut runtime = Runtime::new(program);
     let live_after_new = alloc_count::live();
+    alloc_count::reset_peak();
     let run = catch_unwind(AssertUnwindSafe(|| {
         let mut i = 0usize;
         let mut pending_delay = 0u64;
@@ -515,6 +516,8 @@ pub fn run_case(case: &J, modules: &HashMap<PathBuf, String>, outdir: &Path) -> 
     if want_stats {
         obs.insert("stats".into(), stats);
         obs.insert("peak_heap".into(), json!(peak_heap));
+        // real allocations of the whole process while the program ran, above the level right after Runtime::new
+        obs.insert("peak_live".into(), json!(alloc_count::peak() - live_after_new));
     }
     if ledger {
         obs.insert("ledger".into(), ledger_json);
